@@ -86,6 +86,25 @@ def _hashable(x):
     return x
 
 
+def compact(x, limit=160):
+    """A shortened rendering of a case for the evidence file (long payloads are abbreviated)."""
+    if isinstance(x, bytes):
+        if len(x) > limit:
+            return {'__b_head': x[:40].hex(), 'len': len(x)}
+        return {'__b': x.hex()}
+    if isinstance(x, str):
+        if len(x) > limit:
+            return {'__s_head': x[:60], 'len': len(x)}
+        return to_jsonable(x)
+    if isinstance(x, (list, tuple)):
+        if len(x) > 40:
+            return [compact(v, limit) for v in x[:12]] + ['... %d more items' % (len(x) - 12)]
+        return [compact(v, limit) for v in x]
+    if isinstance(x, dict):
+        return {str(k): compact(v, limit) for k, v in x.items()}
+    return to_jsonable(x)
+
+
 def case_hash(x):
     s = json.dumps(to_jsonable(x), sort_keys=True, separators=(',', ':'))
     return hashlib.blake2b(s.encode('utf-8'), digest_size=8).digest()
@@ -125,7 +144,7 @@ class Collector(object):
             if h not in self.nontrivial:
                 self.nontrivial.add(h)
                 if len(self.samples) < self.MAX_SAMPLES:
-                    self.samples.append(to_jsonable(sample if sample is not None else case))
+                    self.samples.append(compact(sample if sample is not None else case))
 
     def fail(self, key, what, case):
         for f in self.failures:
